@@ -398,7 +398,9 @@ func InfoStrings(tier string) []string {
 		all = append(all, "x"+string([]byte{byte(b)})+"y")
 	}
 	add(all)
-	add([]string{"(()", "())", ")(", "((a)(b))", "\\(", "\\)", "a\\", "\\\\", "\\101", "\\n", "\r\n", "\n\r", "Copyright (c) 1990 Adobe\nAll Rights Reserved.", "%!PS", "001.007", strings.Repeat("long ", 60)})
+	add([]string{"(()", "())", ")(", "((a)(b))", "\\(", "\\)", "a\\", "\\\\", "\\101", "\\n", "\r\n", "\n\r", "Copyright (c) 1990 Adobe\nAll Rights Reserved.", "%!PS", "001.007", strings.Repeat("long ", 60),
+		// texts that look like the markers a reader or writer of the file itself looks for
+		"currentfile eexec\n", "see\ncurrentfile eexec\nbelow", "currentfile eexec\r", "mark currentfile closefile\n", "cleartomark\n", "%%EndComments\n", "\n%%EOF\n", "/Private 1 dict dup begin"})
 	return out
 }
 
